@@ -22,6 +22,7 @@
   the run is the composition of the step models in the order of the chain.
 -/
 import PandoraModel.Properties.C13Flags
+import PandoraModel.Properties.C13PipelineCost
 import PandoraModel.Properties.C13Wiring
 import PandoraModel.Generated.Blocks
 
@@ -112,33 +113,37 @@ abbrev gminOf (x : MC.Input) : Int := gridMin x.dminG x.L.rows x.L.cols
 abbrev gmaxOf (x : MC.Input) : Int := gridMax x.dmaxG x.L.rows x.L.cols
 abbrev nOf (x : MC.Input) : Nat := nDisp (gminOf x) (gmaxOf x) x.sp
 
-/-- the cost row of a pixel, as handed to `to_disp` and to the refinement -/
+/-- the cost row of a pixel as the matching-cost step leaves it (no aggregation) -/
 def costRow (K : RunCfg) (x : MC.Input) (r c : Nat) : List Val :=
   (wtaOfMc x K.ev K.isMax K.disps K.invalid).cv r c
 
-/-- the disparity map of `to_disp` (model of C03) on the cost volume of the matching-cost model (C02) -/
-def wtaMapOf (K : RunCfg) (x : MC.Input) : Nat → Nat → Val :=
-  Wta.toDisp K.sW (wtaOfMc x K.ev K.isMax K.disps K.invalid)
+/-- the input of `to_disp` for the cost rows `R` (those of the matching cost, or aggregated ones) -/
+def wtaIn (K : RunCfg) (x : MC.Input) (R : Nat → Nat → List Val) : Wta.Input :=
+  { rows := x.L.rows, cols := x.L.cols, isMax := K.isMax, disps := K.disps, cv := R, invalid := K.invalid }
+
+/-- the disparity map of `to_disp` (model of C03) on the cost rows `R` -/
+def wtaMapR (K : RunCfg) (x : MC.Input) (R : Nat → Nat → List Val) : Nat → Nat → Val :=
+  Wta.toDisp K.sW (wtaIn K x R)
 
 /-- the grid `loop_refinement` iterates over -/
-def refineGrid (K : RunCfg) (x : MC.Input) : List (List Refinement.PixIn) :=
+def refineGridR (K : RunCfg) (x : MC.Input) (R : Nat → Nat → List Val) : List (List Refinement.PixIn) :=
   Blocks.tabulate x.L.rows x.L.cols fun r c =>
-    ⟨costRow K x r c, wtaMapOf K x r c, C04C02.composedMask x r c,
+    ⟨R r c, wtaMapR K x R r c, C04C02.composedMask x r c,
       ((x.dminG (r : Int) (c : Int) : Int) : Rat), ((x.dmaxG (r : Int) (c : Int) : Int) : Rat)⟩
 
 /-- the maps after the optional refinement (`none`: `loop_refinement` raised) -/
-def afterRefine (K : RunCfg) (x : MC.Input) : Option Maps :=
+def afterRefineR (K : RunCfg) (x : MC.Input) (R : Nat → Nat → List Val) : Option Maps :=
   if K.doRefine then
-    match Refinement.loopRefinement K.refine (refineGrid K x) with
+    match Refinement.loopRefinement K.refine (refineGridR K x R) with
     | .ok o =>
       some ⟨fun r c => match gridImg o ((r : Int), (c : Int)) with | some y => y.d | none => .nan,
             fun r c => match gridImg o ((r : Int), (c : Int)) with | some y => y.flag | none => 0⟩
     | .err _ => none
-  else some ⟨wtaMapOf K x, C04C02.composedMask x⟩
+  else some ⟨wtaMapR K x R, C04C02.composedMask x⟩
 
 /-- the maps after the optional median filter (the filter does not write the flags) -/
-def afterFilter (K : RunCfg) (x : MC.Input) : Option Maps :=
-  (afterRefine K x).map fun m =>
+def afterFilterR (K : RunCfg) (x : MC.Input) (R : Nat → Nat → List Val) : Option Maps :=
+  (afterRefineR K x R).map fun m =>
     if K.doMedian then
       ⟨Filter.medianFilterDisparity K.sM K.invalidMask K.fs x.L.rows x.L.cols m.flag m.disp, m.flag⟩
     else m
@@ -152,15 +157,23 @@ def swapInput (x : MC.Input) : MC.Input :=
 def leftDataset (rows cols : Nat) (A : Maps) : CrossCheck.Dataset :=
   { disp := Blocks.tabulate rows cols A.disp, mask := Blocks.tabulate rows cols A.flag }
 
-/-- **The whole run**: left maps, right maps (same chain on the swapped pair, configuration `K'`), cross-checking.
-    `none` when a refinement raised. -/
-def fullRun (K K' : RunCfg) (V : CrossCheck.Variant) (CP : CrossCheck.Params) (x : MC.Input) :
-    Option (Nat → Nat → CrossCheck.PixOut) :=
-  match afterFilter K x, afterFilter K' (swapInput x) with
+/-- **The whole run for given (aggregated) cost rows** `R` of the pair and `R'` of the swapped pair: left maps, right
+    maps (configuration `K'`), cross-checking.  `none` when a refinement raised. -/
+def fullRunR (K K' : RunCfg) (V : CrossCheck.Variant) (CP : CrossCheck.Params) (x : MC.Input)
+    (R R' : Nat → Nat → List Val) : Option (Nat → Nat → CrossCheck.PixOut) :=
+  match afterFilterR K x R, afterFilterR K' (swapInput x) R' with
   | some A, some B =>
     some fun r c => C07.outPix (CrossCheck.check V CP (leftDataset x.L.rows x.L.cols A)
       { disp := Blocks.tabulate x.L.rows x.L.cols B.disp, mask := [] }) r c
   | _, _ => none
+
+/-- the run without aggregation: the cost rows are those of the matching-cost model -/
+def afterFilter (K : RunCfg) (x : MC.Input) : Option Maps := afterFilterR K x (costRow K x)
+
+/-- **The whole run without aggregation.** -/
+def fullRun (K K' : RunCfg) (V : CrossCheck.Variant) (CP : CrossCheck.Params) (x : MC.Input) :
+    Option (Nat → Nat → CrossCheck.PixOut) :=
+  fullRunR K K' V CP x (costRow K x) (costRow K' (swapInput x))
 
 /-- the configuration of the composed function of `C13Pipeline.lean` for this run -/
 def cfgOf (K : RunCfg) (x : MC.Input) : PipeCfg where
@@ -183,10 +196,11 @@ structure McOK (x : MC.Input) : Prop where
   wf : wfShape x = true
   zncc : x.meas = .zncc → ∀ k : Int, noTinyVariance x k = true
 
-theorem costStage_run (K : RunCfg) (x : MC.Input) (hx : McOK x) :
-    costStage (cfgOf K x) noAgg (toImg x.L.rows x.L.cols (mcScene x)) = toImg x.L.rows x.L.cols (costRow K x) := by
+/-- the cost rows of the matching-cost stage (before any aggregation) are those of the model's cost volume -/
+theorem mcStage_run (K : RunCfg) (x : MC.Input) (hx : McOK x) :
+    mcStage (cfgOf K x) (toImg x.L.rows x.L.cols (mcScene x)) = toImg x.L.rows x.L.cols (costRow K x) := by
   funext p
-  unfold costStage noAgg pairStep mcStage
+  unfold mcStage
   simp only [cfgOf]
   rw [← costVolume_is_mcRowStep x hx.wf hx.zncc]
   unfold toImg
@@ -195,23 +209,36 @@ theorem costStage_run (K : RunCfg) (x : MC.Input) (hx : McOK x) :
     rfl
   · simp only [if_neg hp, Option.map_none]
 
-theorem wtaStage_run (K : RunCfg) (x : MC.Input) (hx : McOK x) (h0 : K.sW.beginY = 0 ∧ K.sW.beginX = 0) :
-    wtaStage (cfgOf K x) noAgg (toImg x.L.rows x.L.cols (mcScene x)) = toImg x.L.rows x.L.cols (wtaMapOf K x) := by
+theorem costStage_run (K : RunCfg) (x : MC.Input) (hx : McOK x) :
+    costStage (cfgOf K x) noAgg (toImg x.L.rows x.L.cols (mcScene x)) = toImg x.L.rows x.L.cols (costRow K x) := by
+  funext p
+  unfold costStage noAgg
+  rw [pairStep_toImg _ _ _ _ _ (mcScene x) (costRow K x) rfl (mcStage_run K x hx), map_toImg]
+  rfl
+
+/-- `R` is what the cost stage (matching cost followed by the aggregation `agg`) computes for the pair `x` -/
+def CostRows (K : RunCfg) (x : MC.Input) (agg : AggStep) (R : Nat → Nat → List Val) : Prop :=
+  costStage (cfgOf K x) agg (toImg x.L.rows x.L.cols (mcScene x)) = toImg x.L.rows x.L.cols R
+
+theorem wtaStage_runR (K : RunCfg) (x : MC.Input) {agg : AggStep} {R : Nat → Nat → List Val} (hR : CostRows K x agg R)
+    (h0 : K.sW.beginY = 0 ∧ K.sW.beginX = 0) :
+    wtaStage (cfgOf K x) agg (toImg x.L.rows x.L.cols (mcScene x)) = toImg x.L.rows x.L.cols (wtaMapR K x R) := by
   unfold wtaStage
-  rw [costStage_run K x hx]
-  exact (toDisp_is_wtaStep K.sW h0 (wtaOfMc x K.ev K.isMax K.disps K.invalid)).symm
+  rw [hR]
+  exact (toDisp_is_wtaStep K.sW h0 (wtaIn K x R)).symm
 
 theorem flags_run (K : RunCfg) (x : MC.Input) (hx : McOK x) :
     pipeFlags (cfgOf K x) (toImg x.L.rows x.L.cols (mcScene x)) = toImg x.L.rows x.L.cols (C04C02.composedMask x) :=
   (composedMask_is_flagStep x (C02.shape_of_wf x hx.wf) (C02.gridOK_of_wf x hx.wf)).symm
 
 /-- what the refinement stage reads: (cost row, disparity), flag — as one array -/
-theorem refineIn_run (K : RunCfg) (x : MC.Input) (hx : McOK x) (h0 : K.sW.beginY = 0 ∧ K.sW.beginX = 0) :
-    pairStep (pairStep (costStage (cfgOf K x) noAgg) (wtaStage (cfgOf K x) noAgg)) (pipeFlags (cfgOf K x))
+theorem refineIn_runR (K : RunCfg) (x : MC.Input) (hx : McOK x) {agg : AggStep} {R : Nat → Nat → List Val}
+    (hR : CostRows K x agg R) (h0 : K.sW.beginY = 0 ∧ K.sW.beginX = 0) :
+    pairStep (pairStep (costStage (cfgOf K x) agg) (wtaStage (cfgOf K x) agg)) (pipeFlags (cfgOf K x))
         (toImg x.L.rows x.L.cols (mcScene x))
-      = toImg x.L.rows x.L.cols (zipArr (zipArr (costRow K x) (wtaMapOf K x)) (C04C02.composedMask x)) :=
+      = toImg x.L.rows x.L.cols (zipArr (zipArr R (wtaMapR K x R)) (C04C02.composedMask x)) :=
   pairStep_toImg _ _ _ _ _ _ _
-    (pairStep_toImg _ _ _ _ _ _ _ (costStage_run K x hx) (wtaStage_run K x hx h0)) (flags_run K x hx)
+    (pairStep_toImg _ _ _ _ _ _ _ hR (wtaStage_runR K x hR h0)) (flags_run K x hx)
 
 theorem mem_tabulate {β : Type} (rows cols : Nat) (g : Nat → Nat → β) (r c : Nat) (hr : r < rows) (hc : c < cols) :
     ∃ row ∈ Blocks.tabulate rows cols g, g r c ∈ row := by
@@ -221,13 +248,14 @@ theorem mem_tabulate {β : Type} (rows cols : Nat) (g : Nat → Nat → β) (r c
   · exact List.mem_map.2 ⟨c, List.mem_range.2 hc, rfl⟩
 
 /-- **The (disparity, flag) maps after the optional refinement are the stage `refineStage`.** -/
-theorem afterRefine_is_refineStage (K : RunCfg) (x : MC.Input) (hx : McOK x) (h0 : K.sW.beginY = 0 ∧ K.sW.beginX = 0)
-    (m : Maps) (hm : afterRefine K x = some m) :
-    refineStage (cfgOf K x) noAgg (pipeFlags (cfgOf K x)) K.doRefine (toImg x.L.rows x.L.cols (mcScene x))
+theorem afterRefineR_is_refineStage (K : RunCfg) (x : MC.Input) (hx : McOK x) {agg : AggStep}
+    {R : Nat → Nat → List Val} (hR : CostRows K x agg R) (h0 : K.sW.beginY = 0 ∧ K.sW.beginX = 0)
+    (m : Maps) (hm : afterRefineR K x R = some m) :
+    refineStage (cfgOf K x) agg (pipeFlags (cfgOf K x)) K.doRefine (toImg x.L.rows x.L.cols (mcScene x))
       = toImg x.L.rows x.L.cols (zipArr m.disp m.flag) := by
   funext p
   unfold refineStage
-  rw [refineIn_run K x hx h0]
+  rw [refineIn_runR K x hx hR h0]
   by_cases hp : InImage x.L.rows x.L.cols p
   · obtain ⟨r, c, rfl, hr, hc⟩ : ∃ r c : Nat, p = ((r : Int), (c : Int)) ∧ r < x.L.rows ∧ c < x.L.cols := by
       unfold InImage at hp
@@ -235,7 +263,7 @@ theorem afterRefine_is_refineStage (K : RunCfg) (x : MC.Input) (hx : McOK x) (h0
       ext <;> simp <;> omega
     rw [toImg_some _ _ _ r c hr hc, toImg_some _ _ _ r c hr hc]
     simp only [Option.bind_some, zipArr]
-    unfold afterRefine at hm
+    unfold afterRefineR at hm
     cases hdo : K.doRefine with
     | false =>
       rw [hdo] at hm
@@ -245,24 +273,24 @@ theorem afterRefine_is_refineStage (K : RunCfg) (x : MC.Input) (hx : McOK x) (h0
     | true =>
       rw [hdo] at hm
       simp only [if_true] at hm ⊢
-      cases hl : Refinement.loopRefinement K.refine (refineGrid K x) with
+      cases hl : Refinement.loopRefinement K.refine (refineGridR K x R) with
       | err e => rw [hl] at hm; cases hm
       | ok o =>
         rw [hl] at hm
         simp only [Option.some.injEq] at hm
         subst hm
-        have hstep := congrFun (loopRefinement_is_refineStep K.refine (refineGrid K x) o hl) ((r : Int), (c : Int))
-        unfold refineGrid at hstep
-        rw [gridImg_tabulate, ] at hstep
+        have hstep := congrFun (loopRefinement_is_refineStep K.refine (refineGridR K x R) o hl) ((r : Int), (c : Int))
+        unfold refineGridR at hstep
+        rw [gridImg_tabulate] at hstep
         unfold refineStep at hstep
         rw [toImg_some _ _ _ r c hr hc] at hstep
         simp only [Option.bind_some] at hstep
         -- the loop body returned on this pixel
         obtain ⟨row, hrow, hcell⟩ := mem_tabulate x.L.rows x.L.cols (fun r c =>
-          (⟨costRow K x r c, wtaMapOf K x r c, C04C02.composedMask x r c,
+          (⟨R r c, wtaMapR K x R r c, C04C02.composedMask x r c,
             ((x.dminG (r : Int) (c : Int) : Int) : Rat), ((x.dmaxG (r : Int) (c : Int) : Int) : Rat)⟩ : Refinement.PixIn))
           r c hr hc
-        obtain ⟨y, hy⟩ := (loopRefinement_ok_iff K.refine (refineGrid K x)).1 ⟨o, hl⟩ row hrow _ hcell
+        obtain ⟨y, hy⟩ := (loopRefinement_ok_iff K.refine (refineGridR K x R)).1 ⟨o, hl⟩ row hrow _ hcell
         rw [hy] at hstep
         simp only [Res.toOption] at hstep
         simp only [hstep, mkPixIn, cfgOf]
@@ -281,17 +309,18 @@ structure MedianOK (K : RunCfg) (x : MC.Input) : Prop where
   cols : K.fs ≤ x.L.cols
 
 /-- **The (disparity, flag) maps after the optional median filter are the stage `filterStage`.** -/
-theorem afterFilter_is_filterStage (K : RunCfg) (x : MC.Input) (hx : McOK x) (h0 : K.sW.beginY = 0 ∧ K.sW.beginX = 0)
-    (hmed : K.doMedian = true → MedianOK K x) (m : Maps) (hm : afterFilter K x = some m) :
-    filterStage (cfgOf K x) noAgg (pipeFlags (cfgOf K x)) K.doRefine K.doMedian (toImg x.L.rows x.L.cols (mcScene x))
+theorem afterFilterR_is_filterStage (K : RunCfg) (x : MC.Input) (hx : McOK x) {agg : AggStep}
+    {R : Nat → Nat → List Val} (hR : CostRows K x agg R) (h0 : K.sW.beginY = 0 ∧ K.sW.beginX = 0)
+    (hmed : K.doMedian = true → MedianOK K x) (m : Maps) (hm : afterFilterR K x R = some m) :
+    filterStage (cfgOf K x) agg (pipeFlags (cfgOf K x)) K.doRefine K.doMedian (toImg x.L.rows x.L.cols (mcScene x))
       = toImg x.L.rows x.L.cols (zipArr m.disp m.flag) := by
-  unfold afterFilter at hm
-  cases hr : afterRefine K x with
+  unfold afterFilterR at hm
+  cases hr : afterRefineR K x R with
   | none => rw [hr] at hm; cases hm
   | some m1 =>
     rw [hr] at hm
     simp only [Option.map_some, Option.some.injEq] at hm
-    have h1 := afterRefine_is_refineStage K x hx h0 m1 hr
+    have h1 := afterRefineR_is_refineStage K x hx hR h0 m1 hr
     unfold filterStage
     cases hdo : K.doMedian with
     | false =>
@@ -314,6 +343,12 @@ theorem afterFilter_is_filterStage (K : RunCfg) (x : MC.Input) (hx : McOK x) (h0
         rw [h1, map_toImg]
         rfl
 
+theorem afterFilter_is_filterStage (K : RunCfg) (x : MC.Input) (hx : McOK x) (h0 : K.sW.beginY = 0 ∧ K.sW.beginX = 0)
+    (hmed : K.doMedian = true → MedianOK K x) (m : Maps) (hm : afterFilter K x = some m) :
+    filterStage (cfgOf K x) noAgg (pipeFlags (cfgOf K x)) K.doRefine K.doMedian (toImg x.L.rows x.L.cols (mcScene x))
+      = toImg x.L.rows x.L.cols (zipArr m.disp m.flag) :=
+  afterFilterR_is_filterStage K x hx (costStage_run K x hx) h0 hmed m hm
+
 /-! ### the right map, cross-checking, the whole run -/
 
 theorem mcScene_swapInput (x : MC.Input) (r c : Nat) : mcScene (swapInput x) r c = swapCell (mcScene x r c) := rfl
@@ -328,15 +363,16 @@ theorem swap_scene_img (x : MC.Input) (h : Shape x) :
   rfl
 
 /-- **The right disparity map of the run (the same chain on the swapped pair) is `rightDisp`.** -/
-theorem afterFilter_swap_is_rightDisp (K' : RunCfg) (x : MC.Input) (h : Shape x) (hx' : McOK (swapInput x))
+theorem afterFilterR_swap_is_rightDisp (K' : RunCfg) (x : MC.Input) (h : Shape x) (hx' : McOK (swapInput x))
+    {agg' : AggStep} {R' : Nat → Nat → List Val} (hR' : CostRows K' (swapInput x) agg' R')
     (h0' : K'.sW.beginY = 0 ∧ K'.sW.beginX = 0) (hmed' : K'.doMedian = true → MedianOK K' (swapInput x))
-    (B : Maps) (hB : afterFilter K' (swapInput x) = some B) :
-    rightDisp (cfgOf K' (swapInput x)) noAgg (pipeFlags (cfgOf K' (swapInput x))) K'.doRefine K'.doMedian
+    (B : Maps) (hB : afterFilterR K' (swapInput x) R' = some B) :
+    rightDisp (cfgOf K' (swapInput x)) agg' (pipeFlags (cfgOf K' (swapInput x))) K'.doRefine K'.doMedian
         (toImg x.L.rows x.L.cols (mcScene x))
       = toImg x.L.rows x.L.cols B.disp := by
   funext p
   unfold rightDisp
-  rw [swap_scene_img x h, afterFilter_is_filterStage K' (swapInput x) hx' h0' hmed' B hB, map_toImg]
+  rw [swap_scene_img x h, afterFilterR_is_filterStage K' (swapInput x) hx' hR' h0' hmed' B hB, map_toImg]
   show toImg x.R.rows x.R.cols _ p = _
   rw [h.rows_eq, h.cols_eq]
   rfl
@@ -381,29 +417,30 @@ structure RunOK (K K' : RunCfg) (x : MC.Input) : Prop where
   med : K.doMedian = true → MedianOK K x
   medR : K'.doMedian = true → MedianOK K' (swapInput x)
 
-/-- **The whole run of the models is the composed function `ccStage`** (no aggregation, criteria flags, right map
-    by the same chain on the swapped pair) **applied to the partial image of the scene**: flag word and confidence
-    cell of every pixel, for every image size. -/
-theorem fullRun_is_ccStage (K K' : RunCfg) (V : CrossCheck.Variant) (CP : CrossCheck.Params) (x : MC.Input)
-    (ok : RunOK K K' x) (out : Nat → Nat → CrossCheck.PixOut) (hout : fullRun K K' V CP x = some out)
-    (hin : ∀ A, afterFilter K x = some A → LeftInInterval CP x.L.rows x.L.cols A) :
+/-- **The whole run of the models is the composed function `ccStage`** — for any aggregation steps `agg`, `agg'`
+    whose cost stages compute the cost rows `R`, `R'` the run is given. -/
+theorem fullRunR_is_ccStage (K K' : RunCfg) (V : CrossCheck.Variant) (CP : CrossCheck.Params) (x : MC.Input)
+    (ok : RunOK K K' x) {agg agg' : AggStep} {R R' : Nat → Nat → List Val}
+    (hR : CostRows K x agg R) (hR' : CostRows K' (swapInput x) agg' R')
+    (out : Nat → Nat → CrossCheck.PixOut) (hout : fullRunR K K' V CP x R R' = some out)
+    (hin : ∀ A, afterFilterR K x R = some A → LeftInInterval CP x.L.rows x.L.cols A) :
     toImg x.L.rows x.L.cols out
-      = ccStage (cfgOf K x) noAgg (pipeFlags (cfgOf K x)) K.doRefine K.doMedian
-          (rightDisp (cfgOf K' (swapInput x)) noAgg (pipeFlags (cfgOf K' (swapInput x))) K'.doRefine K'.doMedian)
+      = ccStage (cfgOf K x) agg (pipeFlags (cfgOf K x)) K.doRefine K.doMedian
+          (rightDisp (cfgOf K' (swapInput x)) agg' (pipeFlags (cfgOf K' (swapInput x))) K'.doRefine K'.doMedian)
           V CP (toImg x.L.rows x.L.cols (mcScene x)) := by
   have hsh := C02.shape_of_wf x ok.mc.wf
-  unfold fullRun at hout
-  cases hA : afterFilter K x with
+  unfold fullRunR at hout
+  cases hA : afterFilterR K x R with
   | none => rw [hA] at hout; cases hout
   | some A =>
-    cases hB : afterFilter K' (swapInput x) with
+    cases hB : afterFilterR K' (swapInput x) R' with
     | none => rw [hA, hB] at hout; cases hout
     | some B =>
       rw [hA, hB] at hout
       simp only [Option.some.injEq] at hout
       subst hout
-      have hL := afterFilter_is_filterStage K x ok.mc ok.wta ok.med A hA
-      have hR := afterFilter_swap_is_rightDisp K' x hsh ok.mcR ok.wtaR ok.medR B hB
+      have hL := afterFilterR_is_filterStage K x ok.mc hR ok.wta ok.med A hA
+      have hRt := afterFilterR_swap_is_rightDisp K' x hsh ok.mcR hR' ok.wtaR ok.medR B hB
       have hcc := check_is_ccStep V CP x.L.rows x.L.cols (leftDataset x.L.rows x.L.cols A)
         { disp := Blocks.tabulate x.L.rows x.L.cols B.disp, mask := [] }
         (leftDataset_rect _ _ A B.disp) (leftInInterval_dataset CP _ _ A (hin A hA))
@@ -411,12 +448,24 @@ theorem fullRun_is_ccStage (K K' : RunCfg) (V : CrossCheck.Variant) (CP : CrossC
       unfold ccStage
       congr 1
       funext p
-      rw [pairStep_toImg _ _ _ _ _ _ _ hL hR, map_toImg]
+      rw [pairStep_toImg _ _ _ _ _ _ _ hL hRt, map_toImg]
       apply congrFun
       apply toImg_congr
       intro r c hr hc
       rw [ccScene_leftDataset _ _ A B.disp r c hr hc]
       rfl
+
+/-- **The whole run of the models without aggregation is the composed function `ccStage`** (no aggregation, criteria
+    flags, right map by the same chain on the swapped pair) **applied to the partial image of the scene**: flag word
+    and confidence cell of every pixel, for every image size. -/
+theorem fullRun_is_ccStage (K K' : RunCfg) (V : CrossCheck.Variant) (CP : CrossCheck.Params) (x : MC.Input)
+    (ok : RunOK K K' x) (out : Nat → Nat → CrossCheck.PixOut) (hout : fullRun K K' V CP x = some out)
+    (hin : ∀ A, afterFilter K x = some A → LeftInInterval CP x.L.rows x.L.cols A) :
+    toImg x.L.rows x.L.cols out
+      = ccStage (cfgOf K x) noAgg (pipeFlags (cfgOf K x)) K.doRefine K.doMedian
+          (rightDisp (cfgOf K' (swapInput x)) noAgg (pipeFlags (cfgOf K' (swapInput x))) K'.doRefine K'.doMedian)
+          V CP (toImg x.L.rows x.L.cols (mcScene x)) :=
+  fullRunR_is_ccStage K K' V CP x ok (costStage_run K x ok.mc) (costStage_run K' (swapInput x) ok.mcR) out hout hin
 
 /-- … and the left (disparity, flag) maps alone (pipelines without cross-checking) -/
 theorem leftRun_is_filterStage (K : RunCfg) (x : MC.Input) (hx : McOK x) (h0 : K.sW.beginY = 0 ∧ K.sW.beginX = 0)
@@ -438,6 +487,21 @@ structure CropRun (x x' : MC.Input) (r0 c0 : Nat) : Prop where
   gmax : gmaxOf x' = gmaxOf x
   gminR : gminOf (swapInput x') = gminOf (swapInput x)
   gmaxR : gmaxOf (swapInput x') = gmaxOf (swapInput x)
+
+theorem cfgOf_congr (K : RunCfg) {x x' : MC.Input} (hp : paramsOf x' = paramsOf x)
+    (h1 : gminOf x' = gminOf x) (h2 : gmaxOf x' = gmaxOf x) : cfgOf K x' = cfgOf K x := by
+  have hsp : x'.sp = x.sp := congrArg McParams.sp hp
+  unfold gminOf at h1
+  unfold gmaxOf at h2
+  unfold cfgOf nOf gminOf gmaxOf
+  rw [hp, h1, h2, hsp]
+
+theorem paramsOf_swap_congr {x x' : MC.Input} (hp : paramsOf x' = paramsOf x) :
+    paramsOf (swapInput x') = paramsOf (swapInput x) := by
+  simp only [paramsOf, McParams.mk.injEq] at hp
+  obtain ⟨p1, p2, p3, p4, p5, p6, p7, p8, p9⟩ := hp
+  simp only [paramsOf, swapInput, McParams.mk.injEq]
+  exact ⟨p1, p2, p3, p7, p8, p9, p4, p5, p6⟩
 
 theorem cfgOf_crop (K : RunCfg) {x x' : MC.Input} {r0 c0 : Nat} (hc : CropRun x x' r0 c0) : cfgOf K x' = cfgOf K x := by
   have hsp : x'.sp = x.sp := congrArg McParams.sp hc.params
@@ -520,6 +584,55 @@ theorem run_crop_eq_whole (K K' : RunCfg) (V : CrossCheck.Variant) (CP : CrossCh
       (flagStep_local (cfgOf K' (swapInput x)).mc hshR.sp_pos _ _ _ (run_samples_le K' (swapInput x) ok.mcR))
       K'.doRefine K'.doMedian)
     (rightDisp_equivariant (cfgOf K' (swapInput x)) noAgg_equivariant
+      (flagStep_equivariant (cfgOf K' (swapInput x)).mc _ _ _) K'.doRefine K'.doMedian)
+    V CP x.L.rows x.L.cols r0 c0 x'.L.rows x'.L.cols (mcScene x) hc.fit ((r : Int), (c : Int)) hcone
+  have h4 : toImg x'.L.rows x'.L.cols (mcScene x') = toImg x'.L.rows x'.L.cols (cropArr r0 c0 (mcScene x)) :=
+    toImg_congr _ _ _ _ hc.scene
+  have hfit := hc.fit
+  rw [← h4] at h3
+  have h3' : toImg x'.L.rows x'.L.cols out' ((r : Int), (c : Int))
+      = toImg x.L.rows x.L.cols out ((r : Int) + r0, (c : Int) + c0) := by
+    rw [h1, h2]; exact h3
+  rw [toImg_some _ _ _ r c hr hcl] at h3'
+  have e : (((r : Int) + (r0 : Int), (c : Int) + (c0 : Int)) : Px) = (((r + r0 : Nat) : Int), ((c + c0 : Nat) : Int)) := by
+    ext <;> simp
+  rw [e, toImg_some _ _ _ (r + r0) (c + c0) (by omega) (by omega)] at h3'
+  exact Option.some.inj h3'
+
+/-- **Crop run = whole run for a run with aggregation**, from the cones `Rc`, `Rc'` of the two cost stages
+    (`C13PipelineCost.lean`): `R`, `R'` (`Rx`, `Rx'`) are the cost rows the cost stages `[matching cost; agg]`,
+    `[matching cost; agg']` compute for the pair and the swapped pair (for the crop and its swapped pair). -/
+theorem runR_crop_eq_whole (K K' : RunCfg) (V : CrossCheck.Variant) (CP : CrossCheck.Params) (x x' : MC.Input)
+    (r0 c0 : Nat) (hc : CropRun x x' r0 c0) (ok : RunOK K K' x) (ok' : RunOK K K' x')
+    {agg agg' : AggStep} {Rc Rc' : Cone}
+    (hC : Local Rc (costStage (cfgOf K x) agg)) (hAe : Equivariant agg)
+    (hC' : Local Rc' (costStage (cfgOf K' (swapInput x)) agg')) (hAe' : Equivariant agg')
+    {R R' Rx Rx' : Nat → Nat → List Val}
+    (hR : CostRows K x agg R) (hR' : CostRows K' (swapInput x) agg' R')
+    (hRx : CostRows K x' agg Rx) (hRx' : CostRows K' (swapInput x') agg' Rx')
+    (out out' : Nat → Nat → CrossCheck.PixOut)
+    (hout : fullRunR K K' V CP x R R' = some out) (hout' : fullRunR K K' V CP x' Rx Rx' = some out')
+    (hin : ∀ A, afterFilterR K x R = some A → LeftInInterval CP x.L.rows x.L.cols A)
+    (hin' : ∀ A, afterFilterR K x' Rx = some A → LeftInInterval CP x'.L.rows x'.L.cols A)
+    (r c : Nat) (hr : r < x'.L.rows) (hcl : c < x'.L.cols)
+    (hcone : ∀ q, inCone (pipeConeOf (cfgOf K x) Rc (mcCone (cfgOf K x).mc (cfgOf K x).gmin (cfgOf K x).gmax)
+        (filterConeOf (cfgOf K' (swapInput x)) Rc'
+          (mcCone (cfgOf K' (swapInput x)).mc (cfgOf K' (swapInput x)).gmin (cfgOf K' (swapInput x)).gmax) K'.doMedian)
+        K.doMedian CP) ((r : Int) + r0, (c : Int) + c0) q →
+      InRect r0 c0 x'.L.rows x'.L.cols q ∨ ¬ InImage x.L.rows x.L.cols q) :
+    out' r c = out (r + r0) (c + c0) := by
+  have h1 := fullRunR_is_ccStage K K' V CP x' ok' hRx hRx' out' hout' hin'
+  have h2 := fullRunR_is_ccStage K K' V CP x ok hR hR' out hout hin
+  rw [cfgOf_crop K hc, cfgOf_crop_swap K' hc] at h1
+  have hsh := C02.shape_of_wf x ok.mc.wf
+  have hshR := C02.shape_of_wf (swapInput x) ok.mcR.wf
+  have h3 := pipeline_crop_eq_whole_of_cost (cfgOf K x) hC hAe
+    (flagStep_local (cfgOf K x).mc hsh.sp_pos _ _ _ (run_samples_le K x ok.mc))
+    (flagStep_equivariant (cfgOf K x).mc _ _ _) K.doRefine K.doMedian
+    (rightDisp_local_of_cost (cfgOf K' (swapInput x)) hC'
+      (flagStep_local (cfgOf K' (swapInput x)).mc hshR.sp_pos _ _ _ (run_samples_le K' (swapInput x) ok.mcR))
+      K'.doRefine K'.doMedian)
+    (rightDisp_equivariant (cfgOf K' (swapInput x)) hAe'
       (flagStep_equivariant (cfgOf K' (swapInput x)).mc _ _ _) K'.doRefine K'.doMedian)
     V CP x.L.rows x.L.cols r0 c0 x'.L.rows x'.L.cols (mcScene x) hc.fit ((r : Int), (c : Int)) hcone
   have h4 : toImg x'.L.rows x'.L.cols (mcScene x') = toImg x'.L.rows x'.L.cols (cropArr r0 c0 (mcScene x)) :=
